@@ -48,6 +48,10 @@ structure Extra where
 def valveIntoExtra (g : Valve.Gather) : Extra :=
   ⟨none, none, some g.players, some g.rules, some g.checkAppId⟩
 
+/-- `unreal2::GatheringSettings::into_extra` -/
+def unreal2IntoExtra (g : Unreal2.Gather) : Extra :=
+  ⟨none, none, some g.players, some g.mutatorsAndRules, none⟩
+
 /-- `impl From<ExtraRequestSettings> for valve::GatheringSettings` (`unwrap_or(default.<field>)`) -/
 def Extra.toValve (e : Extra) : Valve.Gather :=
   { players := e.gatherPlayers.getD Valve.Gather.default.players,
